@@ -158,21 +158,24 @@ def execute(scn, keep_log=False, hook=None):
         rec0 = {'kind': mode, 'sa': sa0, 'da': common.msg_dest(m), 'size': m['len'], 'done': None}
         inflight[m['stack']].append(rec0)
         nested_before = stats['reentrant_submissions']
-        pre = m.get('pre') if sim.current is None and not held[0] else None
+        pre = m.get('pre') if sim.current is None and not held else None
         if pre:
-            # the application thread is parked at its k-th source line inside send_pgn; job threads and reception run on, further
-            # application-level submissions (nested, from the acknowledge callback) wait until this call has returned
-            held[0] += 1
+            # the application thread is parked at its k-th source line inside send_pgn; job threads and reception run on, and with them
+            # the submissions made from their callbacks (nested in a transmission, from the acknowledge callback) - a second thread
+            # inside send_pgn, for another (SA,DA) pair; submissions for the pair of the parked call wait until it has returned
+            held.append(pair_key(m))
         try:
             ok, tr = call_preempted(sim, (lambda: st.cas[m['ca']].send_pgn(m['dp'], m['pf'], m['ps'], m['prio'], list(data))), pre)
         finally:
             if pre:
-                held[0] -= 1
+                held.pop()
         was_held = tr is not None and tr.fired > 0
         if was_held:
             stats['preempted_calls'] += 1
             # sessions that ended while the call was held are free
             sure = sum(1 for r in inflight[m['stack']] if r is not rec0 and r['kind'] == mode and r['done'] is None)
+            # ... and sessions opened from callbacks meanwhile may have used the capacity up
+            maybe = max(maybe, sum(1 for r in inflight[m['stack']] if r is not rec0 and r['kind'] == mode and (r['done'] is None or sim.now < r['done'] + release_slack)))
         if ok is not True:
             inflight[m['stack']].remove(rec0)
         if pre:
@@ -211,14 +214,17 @@ def execute(scn, keep_log=False, hook=None):
     base = sim.now
     txcount = {}
     nest = [0]
-    held = [0]
+    held = []       # (stack, CA, destination) of the application call that is parked inside send_pgn right now
+
+    def pair_key(m):
+        return (m['stack'], m['ca'], common.msg_dest(m))
     deferred = []
     pending_on_tx = [m for m in scn['msgs'] if m.get('on_tx') is not None]
 
     def on_tx(fr):
         k = txcount.get(fr.src, 0)
         txcount[fr.src] = k + 1
-        if nest[0] or held[0]:
+        if nest[0]:
             return
         i = rc.Id(fr.can_id)
         kind = None
@@ -227,7 +233,7 @@ def execute(scn, keep_log=False, hook=None):
         elif i.pf == rc.PF_FD_TP_DT and len(fr.data) < 64:
             kind = 'last_dt'
         for m in list(pending_on_tx):
-            if m['stack'] == fr.src and (m['on_tx'] == k or (kind is not None and m['on_tx'] == kind)):
+            if m['stack'] == fr.src and (m['on_tx'] == k or (kind is not None and m['on_tx'] == kind)) and pair_key(m) not in held:
                 pending_on_tx.remove(m)
                 nest[0] += 1
                 try:
@@ -247,7 +253,7 @@ def execute(scn, keep_log=False, hook=None):
             if stack == src['stack'] and lid == 'ca%d' % src['ca'] and sa == src['ps'] and pgn == rc.sae_pgn(src['dp'], src['pf'], src['ps']) and rc.le24(d, 1) == src['len']:
                 pending_on_ack.remove(m)
                 stats['submitted_from_ack_callback'] += 1
-                if held[0]:
+                if pair_key(m) in held:
                     deferred.append(lambda m=m: submit(m))
                 else:
                     submit(m)
